@@ -208,6 +208,18 @@ def check(ctx, mod):
         else:
             oks = [k for k in st.key if k[0] == "io"]
             R.instance("DISP", "Err exit after %d reads %s (wsh=%s)" % (len(evs), [k[1] for k in oks], wsh))
+            if len(evs) == 1 and oks and oks[0][1] == "ok":
+                # REFUSE: after a successful header read the only refusal that leaves the rest of the message unread is
+                # for a declared length that cannot hold the 4-byte standard header; any longer message — damaged or
+                # not — must be consumed to its declared end, or the reader loses the message boundaries
+                rng = declared_range(S, row, st)
+                if rng is None:
+                    R.notes.append("REFUSE: declared-length range of an Err exit of %s not tracked (not decided)" % fn)
+                elif rng[1] <= 3:
+                    R.obligation("REFUSE", fn + "|refusal-range|wsh=%s" % wsh, "discharged", "the exit that refuses without the second read has declared length in [%d, %d]" % rng)
+                    R.instance("REFUSE", "refusal without consuming only for declared length in [%d, %d] (wsh=%s)" % (rng[0], rng[1], wsh))
+                else:
+                    R.violation("REFUSE", fn + "|refusal-range|wsh=%s" % wsh, "after the header read the reader can return an error without reading the rest of the message for a declared length in [%d, %d]: only a length below 4 (shorter than its own standard header) may be refused unread, any other message must be consumed to its declared end or the following messages are cut at the wrong place" % rng, function=fn, file=fl, line=ln)
     for _ in range(n_ok_full):
         R.instance("ALG.msg-exit", "message exit")
     S["norm"] = normalised(S)
